@@ -53,6 +53,14 @@ fn take_rows(p: &Model, rows: &[usize]) -> Model {
     m
 }
 
+fn brief<T: std::fmt::Debug>(v: &[T]) -> String {
+    if v.len() <= 12 {
+        format!("{:?}", v)
+    } else {
+        format!("{:?}.. ({} entries)", &v[..12], v.len())
+    }
+}
+
 fn clip(s: String) -> String {
     if s.chars().count() <= 1200 {
         s
@@ -123,6 +131,35 @@ fn well_formed(cx: &mut Cx, o: &Obs, which: &str) -> bool {
     let rc = recount(&o.tgt, o.nt);
     if o.counts != rc {
         cx.fail("label_count_stale", format!("{}: label_count() = {:?} but a recount of the returned targets gives {:?}", which, o.counts, rc));
+    }
+    // label accessors of the returned value: the labels are those of its targets, whatever the weights
+    if let Some(acc) = &o.acc {
+        let per_col: Vec<Vec<usize>> = rc.iter().map(|m| m.keys().cloned().collect()).collect();
+        let mut all: Vec<usize> = per_col.iter().flatten().cloned().collect();
+        all.sort();
+        all.dedup();
+        if acc.labels != all {
+            let zero_weight_only = o.w.len() == o.n
+                && all.iter().filter(|l| !acc.labels.contains(l)).all(|l| (0..o.n).filter(|&i| o.tgt[i].contains(l)).all(|i| o.w[i] <= 0.0))
+                && acc.labels.iter().all(|l| all.contains(l));
+            let sig = if zero_weight_only { "labels.class_without_positive_weight_missing" } else { "labels.differ_from_targets" };
+            cx.fail_global(sig, format!("{}: labels() = {:?} but the returned targets {} hold the labels {:?} (weights {})", which, acc.labels, brief(&o.tgt), all, brief(&o.w)));
+        }
+        if acc.label_sets != per_col {
+            cx.fail_global("label_set.differs_from_targets", format!("{}: label_set() = {:?} but the target columns hold {:?}", which, acc.label_sets, per_col));
+        }
+        // label_frequencies(): per label the sum of the weights (1 without weights) of the target entries carrying it
+        let mut want: BTreeMap<usize, f32> = BTreeMap::new();
+        for (i, row) in o.tgt.iter().enumerate() {
+            let wi = if o.w.len() == o.n { o.w[i] } else { o.w.get(i).cloned().unwrap_or(1.0) };
+            for &l in row {
+                *want.entry(l).or_insert(0.0) += wi;
+            }
+        }
+        let same = want.len() == acc.freqs.len() && want.iter().all(|(k, v)| acc.freqs.get(k).map_or(false, |g| lvmc_core::close(*g as f64, *v as f64, 1e-5, 0.0)));
+        if !same {
+            cx.fail_global("label_frequencies.wrong_value", format!("{}: label_frequencies() = {:?}, summing the weights {} over the targets {} gives {:?}", which, acc.freqs, brief(&o.w), brief(&o.tgt), want));
+        }
     }
     cx.v.len() == before
 }
